@@ -159,3 +159,30 @@ fn cover_mathfns() {
     let x: f64 = kani::any();
     kani::cover!(x.is_finite() && x != x.trunc());
 }
+
+// ---- math.clamp: the complete closure body, extracted each run.  Listed
+// (regex) substitutions, argument fetches only: `s.get::<Numeric>(name!(min))?`
+// -> the Numeric parameter, `s.get_map(name!(x), check_numeric_compat_unit)?`
+// -> `check_numeric_compat_unit(Value::from(x_arg))?` (the closure's own
+// compatibility check, applied to the harness's number). ----
+//@range file=rsass/src/sass/functions/math.rs fn=create_module after="def!(f, clamp(min, number, max), |s| {" until="\n    });"
+//@  header: fn snippet_clamp(min_arg: Numeric, number_arg: Numeric, max_arg: Numeric) -> Result<Value, CallError>
+//@  resubst: s\.get::<Numeric>\(name!\((\w+)\)\)\? => \1_arg.clone()
+//@  resubst: s\.get_map\(name!\((\w+)\), check_numeric_compat_unit\)\? => check_numeric_compat_unit(Value::from(\1_arg.clone())).map_err(CallError::msg)?
+//@end
+
+fn px(v: f64) -> Numeric {
+    Numeric::new(v, UnitSet::from(Unit::Px))
+}
+/// C29: clamp returns one of its arguments: the number when it lies between
+/// the bounds, else the bound it crossed — also when the bounds are given in
+/// the wrong order (clamp(5, 0, 1) is 5: the lower bound wins).
+#[kani::proof]
+#[kani::stub(alloc::fmt::format, fmt_stub)]
+#[kani::unwind(5)]
+fn c29_clamp_returns_one_of_its_arguments() {
+    assert!(parts(snippet_clamp(px(1.0), px(5.0), px(10.0))).0 == 5.0, "clamp(1px, 5px, 10px) is 5px");
+    assert!(parts(snippet_clamp(px(1.0), px(0.0), px(10.0))).0 == 1.0, "below the lower bound: the lower bound");
+    assert!(parts(snippet_clamp(px(1.0), px(50.0), px(10.0))).0 == 10.0, "above the upper bound: the upper bound");
+    assert!(parts(snippet_clamp(px(5.0), px(0.0), px(1.0))).0 == 5.0, "bounds in the wrong order: the lower bound wins");
+}
